@@ -148,6 +148,21 @@ CHECKS["C06"] = dict(
               "by the quoted text",
 )
 
+CHECKS["C19"] = dict(
+    text="MC_Online checks the routing design (prints, evaluation of user text, error reporting) in both modes; programs "
+         "of the C01 core with every printing element, tainted Python expressions fed to evaluate / call / Vyxal-exec "
+         "as literals and as inputs inside every structure, and failing programs x output flags are run through "
+         "execute_vyxal(online_mode=True) with fd-level capture of the host's stdout and a canary that executing the "
+         "tainted text as Python would trigger; Trace_Machine's verdict X decides the property on those observations "
+         "and compares the output record with VyMachine's printed text where the run is inside the machine's domain.",
+    note="Trusted: fd-level capture, the canary (positive control: offline the same program triggers it). Elements that "
+         "hand strings to sympy's parser (∆e, ∆E, øḋ on strings) do execute user text even online: they are outside "
+         "the property's statement (evaluate, call, input parsing) and are reported in DESIGN.md, not claimed.",
+    ref="DESIGN.md section 6 C19",
+    technique="TLA+ spec (MC_Online routing design + VyMachine output) model-checked by TLC + TLC validation of online "
+              "runs observed through fd capture, canary and the output/error records",
+)
+
 NOT_APPLICABLE = {}
 
 DEFAULT_NA = ("check under construction in this round; it will be claimed when its TLA+ module and "
